@@ -385,6 +385,7 @@ def load_table(
                         delimiter=delimiter,
                         header=0 if header else None,
                         dtype=dtype,
+                        float_precision="round_trip",
                     )
                 else:
                     table = pd.read_table(
@@ -392,6 +393,7 @@ def load_table(
                         delimiter=delimiter,
                         header=0 if header else None,
                         dtype=dtype,
+                        float_precision="round_trip",
                     )
             except ValueError as exc:
                 if delimiter is None:
@@ -488,6 +490,7 @@ def load_table_v2(
                     delimiter=delimiter,
                     header=0 if header else None,
                     usecols=rename_cols.values() if rename_cols else None,
+                    float_precision="round_trip",
                 )
             else:
                 table = pd.read_table(
@@ -495,6 +498,7 @@ def load_table_v2(
                     delimiter=delimiter,
                     header=0 if header else None,
                     usecols=rename_cols.values() if rename_cols else None,
+                    float_precision="round_trip",
                 )
             if rename_cols:
                 col_new = {value: key for key, value in rename_cols.items()}
